@@ -7,10 +7,30 @@ impl Time {
     pub fn now() -> (r: Time) { unimplemented!() }
 }
 #[verifier::external_body] pub struct UriRsync { _opaque: () }
+impl Clone for UriRsync {
+    #[verifier::external_body]
+    fn clone(&self) -> (r: Self) ensures r == *self { unimplemented!() }
+}
 #[verifier::external_body] pub struct UriHttps { _opaque: () }
+impl Clone for UriHttps {
+    #[verifier::external_body]
+    fn clone(&self) -> (r: Self) ensures r == *self { unimplemented!() }
+}
 #[verifier::external_body] pub struct Serial { _opaque: () }
+impl Clone for Serial {
+    #[verifier::external_body]
+    fn clone(&self) -> (r: Self) ensures r == *self { unimplemented!() }
+}
 #[verifier::external_body] pub struct Bytes { _opaque: () }
+impl Clone for Bytes {
+    #[verifier::external_body]
+    fn clone(&self) -> (r: Self) ensures r == *self { unimplemented!() }
+}
 #[verifier::external_body] pub struct ManifestHash { _opaque: () }
+impl Clone for ManifestHash {
+    #[verifier::external_body]
+    fn clone(&self) -> (r: Self) ensures r == *self { unimplemented!() }
+}
 #[verifier::external_body] pub struct IoError { _opaque: () }
 #[verifier::external_body] pub struct PersistError { _opaque: () }
 
